@@ -11,25 +11,39 @@ extern const struct anon_f0db2cc371 _ZTVN4ikos9wto_cycleI4TCFGEE;
 #define INIT_PRE(self) ((ASSUME_ON(self) && g_akey == g_head && g_anode != 0) ? MEET(fold_init(), ANODE_PAIR(g_anode)->f1.f0) : fold_init())
 #define MONITOR_ZERO (g_epoch == 0 && g_phase == 0 && g_ext_n == 0 && g_ref_n == 0 && g_leq_n == 0 && g_cp_n == 0 && g_setpre_n == 0 && g_pre_tab_set == 0)
 
-//@check id=visit_cycle fn=_ZN4ikos38interleaved_fwd_fixpoint_iterator_impl12wto_iteratorI4TCFG2GVE5visitERNS_9wto_cycleIS2_EE props=C05,C06 rec=1 unwind=5 bounded="cycle with an empty body (self loop), at most 2 predecessors of the head, ascending sequence stabilising within 3 passes, descending_iterations <= 2, entry block not inside the cycle (m_skip false)" timeout=900 first_timeout=400
+//@check id=visit_cycle fn=_ZN4ikos38interleaved_fwd_fixpoint_iterator_impl12wto_iteratorI4TCFG2GVE5visitERNS_9wto_cycleIS2_EE props=C05,C06 rec=1 unwind=5 vary=SKIP:0-1 cost=9 bounded="cycle with an empty body (self loop), at most 2 predecessors of the head, ascending sequence stabilising within 3 passes, descending_iterations <= 2" timeout=1500 first_timeout=900
+/* SKIP (one run per value): m_skip on entry.  While skipping, a cycle that does not contain the requested entry block is
+ * left untouched; a cycle that contains it (here: whose head it is) is analysed from the STORED pre-invariant of the
+ * entry instead of the join of the predecessors, and the skipping ends. */
+#ifndef SKIP
+#define SKIP 0
+#endif
+#define SKIPPED(self) (SKIP == 1 && (self)->f2 != g_head)
+#define INIT_BASE(self) (SKIP == 1 ? PRE0(g_head) : fold_init())
+#undef INIT_PRE
+#define INIT_PRE(self) ((ASSUME_ON(self) && g_akey == g_head && g_anode != 0) ? MEET(INIT_BASE(self), ANODE_PAIR(g_anode)->f1.f0) : INIT_BASE(self))
 void VISIT_CYCLE(WI *self, CYC *cycle)
 __CPROVER_requires(VERBOSITY == 0 && MONITOR_ZERO && g_mode == 0)
-__CPROVER_requires(self->f5 == 0)
+__CPROVER_requires(self->f5 == SKIP)
 __CPROVER_requires(cycle->f1 == g_head && g_np <= NPMAX && DESC_ITERS(self) < KMAX)
 __CPROVER_requires(cycle->f2.f0.f0 != 0 && SLIST_ROOT(cycle->f2.f0.f0).f0 == &SLIST_ROOT(cycle->f2.f0.f0))
 __CPROVER_requires(self->f4 == 0 || (g_anode == 0 || (AMAP_COUNT(self->f4) != 0 && ANODE_PAIR(g_anode)->f0 == g_akey)))
 __CPROVER_assigns(cycle->f3, self->f5, g_epoch, g_phase, g_ext_n, g_ref_n, g_leq_n, g_cp_n, g_setpre_n, g_cur, g_first, g_pre_tab, g_fix, g_last_ref, g_leq_a, g_leq_b, g_pre_tab_set, g_leq_r)
+/* C06: a skipped cycle is left untouched and the skipping goes on */
+__CPROVER_ensures(SKIPPED(self) ==> (self->f5 == 1 && g_cp_n == 0 && g_setpre_n == 0 && g_leq_n == 0 && cycle->f3 == __CPROVER_old(cycle->f3)))
+__CPROVER_ensures(!SKIPPED(self) ==> self->f5 == 0)
 /* C05: the ascending loop is left only after `new_pre <= pre` answered yes */
-__CPROVER_ensures(g_phase >= 1 && g_leq_n >= 1)
+__CPROVER_ensures(!SKIPPED(self) ==> (g_phase >= 1 && g_leq_n >= 1))
 /* C06: the first pass starts from the join of the posts of the predecessors that are NOT nested deeper than the head
- * (back edges excluded, every other edge included), strengthened by the head's assumption if there is one */
-__CPROVER_ensures(g_first == INIT_PRE(self))
+ * (back edges excluded, every other edge included) -- or from the entry's stored value -- strengthened by the head's
+ * assumption if there is one */
+__CPROVER_ensures(!SKIPPED(self) ==> g_first == INIT_PRE(self))
 /* every pass over the head is followed by exactly one inclusion test; passes in the ascending phase = extrapolations + 1 */
-__CPROVER_ensures(g_leq_n == g_cp_n && g_cp_n >= g_ext_n + 1)
-__CPROVER_ensures(cycle->f3 == __CPROVER_old(cycle->f3) + g_ext_n + 1)
+__CPROVER_ensures(!SKIPPED(self) ==> (g_leq_n == g_cp_n && g_cp_n >= g_ext_n + 1))
+__CPROVER_ensures(!SKIPPED(self) ==> cycle->f3 == __CPROVER_old(cycle->f3) + g_ext_n + 1)
 /* the head's stored pre-invariant at the end is the post-fixpoint, or the last refinement of it */
-__CPROVER_ensures(g_pre_tab_set && g_pre_tab == (g_ref_n == 0 ? g_fix : g_last_ref))
-__CPROVER_ensures(DESC_ITERS(self) == 0 ==> (g_ref_n == 0 && g_phase == 1 && g_cp_n == g_ext_n + 1))
+__CPROVER_ensures(!SKIPPED(self) ==> (g_pre_tab_set && g_pre_tab == (g_ref_n == 0 ? g_fix : g_last_ref)))
+__CPROVER_ensures((!SKIPPED(self) && DESC_ITERS(self) == 0) ==> (g_ref_n == 0 && g_phase == 1 && g_cp_n == g_ext_n + 1))
 __CPROVER_ensures(g_ref_n <= DESC_ITERS(self));
 
 static IT h_it; static PARAMS h_params; static GV h_fac; static SLIST h_lst; static AMAP h_amap; static ANODE h_anode;
@@ -40,7 +54,7 @@ void h_visit_cycle(void){
   GHOST(uint64_t, head); GHOST(uint64_t, np); GHOST(uint64_t, p0); GHOST(uint64_t, p1); GHOST(uint64_t, entry); GHOST(uint32_t, nfix);
   GHOST(uint8_t, amode); GHOST(uint64_t, akey); GHOST(uint64_t, aval); GHOST(uint64_t, acount);
   g_head = head; g_np = np; g_preds[0] = p0; g_preds[1] = p1;
-  wi.f1 = &h_it; wi.f2 = entry; wi.f3 = &h_fac; wi.f5 = 0;
+  wi.f1 = &h_it; wi.f2 = entry; wi.f3 = &h_fac; wi.f5 = SKIP;
   /* assumptions: none / a map that binds nothing for the key asked / a map that binds the key */
   if (amode == 0) { wi.f4 = 0; g_anode = 0; }
   else { AMAP_COUNT(&h_amap) = acount; wi.f4 = &h_amap; g_akey = akey;
